@@ -51,10 +51,12 @@ TEXT["C03"] = dict(
     text="Theorems (Coq kernel, no axioms) for relational goals over guard-shaped relation tables: C03_complete - every solution of the formula is an "
          "instance of an answer at a finite position whatever sibling branches do (fair mplus/bind lemmas in both argument positions); "
          "C03_total_force - no force of a guarded program gets stuck; take(n) laws: at most n, fewer only if exhausted, exactly n when available, "
-         "all for negative n iff finite, prefix of n+1, deterministic. Tie: exact cell traces + take(n) prefix/exact-n/determinism oracles on the "
+         "all for negative n iff finite, prefix of n+1, deterministic. takeStream is translated from micro/stream.go on every run (genmicro -stream; CarCdr as one "
+         "step of the stream model) and proved equal to the model take, so the count clauses are theorems about the text (C03_code_take_is_model, "
+         "C03_code_at_most_n, C03_code_fewer_only_if_exhausted, C03_code_all_for_negative_n, C03_code_take_never_panics). Tie for Mplus/Bind and the goal constructors: exact cell traces + take(n) prefix/exact-n/determinism oracles on the "
          "real code, with process isolation so that a diverging implementation is an observation.",
     note=_PROG_NOTE + "; multiplicities in infinite streams are stated at set level (InStream), multisets for finite streams",
-    technique="Coq proof (induction on the Den derivation with fairness lemmas; induction on take fuel) + differential cell-trace correspondence",
+    technique="Coq proof (induction on the Den derivation with fairness lemmas; induction on take fuel) + translation of takeStream to Gallina on every run + differential cell-trace correspondence",
 )
 TEXT["C09"] = dict(
     text="Theorems (Coq kernel, no axioms): DisjPlusNoZzz is the nested binary disjunction (stream equality); ConjPlusNoZzz has the identical cell trace as "
